@@ -82,9 +82,9 @@ def scenarios(ctx):
           q(4, 4, 4, -1, 0, True, 4), q(2, 8, 1, 16, 0, False, 2),
           p(2, 5, 3, 2, 3), p(1, 10, 1, 1, 4), p(3, 6, 8, 10, 5)]
     if not quick:
-        sc += [q(8, 6, 8, -1, 0, True, 8), q(8, 4, 8, 4, 0, False, 1), q(1, 30, 8, -1, 2, True, 3),
+        sc += [q(5, 6, 5, -1, 0, True, 5), q(8, 4, 8, 4, 0, False, 1), q(1, 30, 8, -1, 2, True, 3),
                q(5, 6, 1, 30, 0, False, 3), q(3, 10, 3, -1, 1, True, 0),
-               p(4, 8, 16, 4, 7), p(2, 12, 32, 10, 0), p(8, 4, 2, 1, 2), p(1, 20, 4, 3, 5)]
+               p(4, 8, 8, 4, 7), p(2, 12, 8, 10, 0), p(8, 4, 2, 1, 2), p(1, 20, 4, 3, 5)]
     for s in sc:
         s["sched_prob"] = 35
         s["sched_max_us"] = 150
